@@ -1137,6 +1137,15 @@ func (en *env) callExpr(v *ECall) tval {
 		}
 		mapCellSorts["sentlog"] = &Sort{name: "(Array Ref Bool)"}
 		return tval{term: fmt.Sprintf("(select (select %s %s) %s)", en.e.heap(en.st, "sentlog", mapCellSorts["sentlog"]), ch.term, val.term), typ: types.Typ[types.Bool]}
+	case "sameobj":
+		// sameobj(x, y): two references (of whatever static types) denote the same address; the
+		// memory model is untyped, so separation of differently typed objects is stated with it
+		x := en.eval(v.Args[0])
+		y := en.eval(v.Args[1])
+		if en.e.sortOf(x.typ).kind != skRef || en.e.sortOf(y.typ).kind != skRef {
+			en.fail("sameobj of %s, %s", x.typ, y.typ)
+		}
+		return tval{term: eq(x.term, y.term), typ: boolT}
 	case "soff":
 		x := en.eval(v.Args[0])
 		return tval{term: app("s_off", x.term), typ: types.Typ[types.Int]}
